@@ -9,7 +9,7 @@ import (
 
 func init() {
 	register(&propDef{ID: "C02", Run: runC02,
-		Explain:    "Structural necessary conditions of 'responses follow the Via chain', decided on the SSA/CFG of /repo: (1) in the response branch of HandleMessage exactly one PopVia on every path and before the hop lookup; (2) the only dispatch of that branch is guarded by the hop lookup's err==nil and takes host/port/transport from results 0,1,2 of that same call; (3) no dispatch is reachable on the failure edge; (4) inside the hop function the Via entry is GetParam(0) of GetVia(), their errors are returned, host = received on its success edge else sent-by host, port = rport on (received ok and rport numeric) else GetPort(), transport = the entry's transport; (5) PopVia removes one via-param when Size>=2 and the whole header otherwise, PopViaParam is delete-first; (6) ViaParam.GetPort returns the stored port when non-zero, else 5061 only under TLS, else 5060; (7) unsupported transports end in an error and sendMessage sends only on err==nil. This decides the shape of the code, not the behaviour on concrete messages.",
+		Explain:    "Structural necessary conditions of 'responses follow the Via chain', decided on the SSA/CFG of /repo: (1) in the response branch of HandleMessage exactly one PopVia on every path and before the hop lookup; (2) the only dispatch of that branch is guarded by the hop lookup's err==nil and takes host/port/transport from results 0,1,2 of that same call; (3) no dispatch is reachable on the failure edge; (4) inside the hop function the Via entry is GetParam(0) of GetVia(), their errors are returned, host = received on its success edge else sent-by host, port = rport on (received ok and rport numeric) else GetPort(), transport = the entry's transport; (5) PopVia removes one via-param when Size>=2 and the whole header otherwise, PopViaParam is delete-first; (6) ViaParam.GetPort returns the stored port when non-zero, else 5061 only under TLS, else 5060; (7) unsupported transports end in an error and sendMessage sends only on err==nil. This decides the shape of the code, not the behaviour on concrete messages. Hop transport: findClientTransport lends the UDP listener's socket (udp-socket-only-for-udp) only under the test that the requested transport is udp; ordered-lists (shared with C14): decoded Via entries own their parameter lists; layout: ParseVia trims every element.",
 		NotDecided: "history-level consequence (a response returns to the hop its request came from); name resolution; value-level Via decoding/encoding (C14)."})
 }
 
